@@ -94,7 +94,7 @@ def name_ids(ctx):
 
 
 def ident_population(rnd, n):
-    alpha = b'abcdefghijklmnopqrstuvwxyz_'
+    alpha = b'abcdefghijklmnopqrstuvwxyz_ABCDEFGHIJKLMNOPQRSTUVWXYZ'
     alnum = alpha + b'0123456789' + bytes(range(128, 256))
     names = []
     seen = set()
@@ -105,6 +105,11 @@ def ident_population(rnd, n):
         ln = rnd.randrange(1, 7)
         w = bytes([rnd.choice(alpha + bytes(range(128, 256)))]) + bytes(rnd.choice(alnum) for _ in range(ln - 1))
         names.append(w)
+    # identifiers that differ only in letter case, or only in a glyph byte
+    for w in list(names[:60]):
+        names.append(w.upper())
+        names.append(w.capitalize())
+        names.append(bytes([0x80 + (w[0] % 0x70)]) + w)
     out = []
     for w in names:
         if w not in seen:
